@@ -30,6 +30,8 @@
 #include "object.h"
 #include "layout.h"
 
+#include "layout_common.h"
+
 enum { K_AXIS, K_LINE, K_TEXT, K_GRAPH, K_WORLD, K_NONE };
 static const char *kind_name[] = { "axis", "line", "text", "graph", "world" };
 
@@ -160,42 +162,6 @@ static void drv_reset(void)
 	cur_kind = K_NONE;
 }
 
-/* ---------- value encodings ---------- */
-#define MAXV 4096
-static long long vbuf[MAXV];
-static size_t vlen;
-
-static void v_put(long long v) { if (vlen < MAXV) vbuf[vlen++] = v; }
-
-static void enc_real(double v, int is_float, float fv)
-{
-	double t = v * 2.0;
-	if (isfinite(t) && t == floor(t) && fabs(t) < 70368744177664.0 /* 2^46 */) {
-		long long ll = (long long) t, hi, lo;
-		hi = ll >= 0 ? ll / 65536 : -((-ll + 65535) / 65536);
-		lo = ll - hi * 65536;
-		v_put(0); v_put(hi); v_put(lo);
-		return;
-	}
-	if (is_float) {
-		uint32_t b;
-		memcpy(&b, &fv, sizeof(b));
-		v_put(1); v_put(b >> 16); v_put(b & 0xffff);
-	} else {
-		uint64_t b;
-		memcpy(&b, &v, sizeof(b));
-		v_put(2); v_put((b >> 48) & 0xffff); v_put((b >> 32) & 0xffff); v_put((b >> 16) & 0xffff); v_put(b & 0xffff);
-	}
-}
-static void enc_string(const char *s)
-{
-	while (s && *s) {
-		unsigned char ch = (unsigned char) *s;
-		long long n = 0;
-		while ((unsigned char) *s == ch) { ++n; ++s; }
-		v_put(ch); v_put(n);
-	}
-}
 /* decode a property value by its reported type */
 static void enc_value(const MPT_STRUCT(value) *val)
 {
@@ -276,52 +242,6 @@ static void answer(struct cmd *c, int rc)
 	drv_dbg();
 	j_int("rc", rc);
 	drv_end();
-}
-
-/* ---------- argument rendering ---------- */
-static char *arg_text(const struct cmd *c, const char *key)   /* byte list -> C string */
-{
-	size_t n;
-	uint8_t *b = drv_bytes(c, key, &n);
-	b = (uint8_t *) realloc(b, n + 1);
-	b[n] = 0;
-	return (char *) b;
-}
-static char *arg_rle(const struct cmd *c, const char *key)    /* ch,n,ch,n,... -> C string */
-{
-	size_t n, i, total = 0, pos = 0;
-	long long *v = drv_ints(c, key, &n);
-	char *s;
-	for (i = 0; i + 1 < n; i += 2) total += (size_t) v[i + 1];
-	s = (char *) malloc(total + 1);
-	for (i = 0; i + 1 < n; i += 2) {
-		memset(s + pos, (int) v[i], (size_t) v[i + 1]);
-		pos += (size_t) v[i + 1];
-	}
-	s[total] = 0;
-	free(v);
-	return s;
-}
-/* doubled value hi*65536+lo */
-static long long twice(const long long *v) { return v[0] * 65536 + v[1]; }
-
-static void render_num(char *buf, size_t len, long long t, const char *sty)
-{
-	const char *pre = "";
-	if (!strcmp(sty, "sp")) pre = " ";
-	else if (!strcmp(sty, "plus")) pre = "+";
-	if (t % 2) {
-		snprintf(buf, len, "%s%.1f", pre, (double) t / 2.0);
-	}
-	else if (!strcmp(sty, "hex")) {
-		snprintf(buf, len, "0x%llx", (unsigned long long) (t / 2));
-	}
-	else if (!strcmp(sty, "flt")) {
-		snprintf(buf, len, "%lld.0", t / 2);
-	}
-	else {
-		snprintf(buf, len, "%s%lld", pre, t / 2);
-	}
 }
 
 /* value source of a step: text (through mpt_object_set_string) or typed value */
